@@ -22,8 +22,8 @@ EmptyH == [scen |-> "", par |-> [variant |-> "none"], sent |-> <<>>, arr |-> <<>
 
 Step(h, e) ==
     CASE e.event = "Begin"   -> [EmptyH EXCEPT !.scen = e.scen, !.twinof = e.twin,
-                                   \* the output of the scenario directly before (the noise-free twin if twinof names it)
-                                   !.twin = h.out]
+                                   \* the output of the latest noise-free scenario (the twin when twinof names it)
+                                   !.twin = IF h.out.set /\ h.twinof = "" THEN h.out ELSE h.twin]
       [] e.event = "Params"  -> [h EXCEPT !.par = e]
       [] e.event = "Send"    -> IF "p" \in DOMAIN e
                                 THEN [h EXCEPT !.sent = Append(@, [n |-> e.n, t |-> e.t, ttl |-> e.ttl, run |-> e.run, flow |-> e.flow, p |-> e.p])]
@@ -55,6 +55,30 @@ dl1(h) == DelOfRun(h, 1)
 PropIds == {"C01", "C02", "C03", "C04", "C05", "C06", "C07", "C08", "C09", "C10"}
 EngRun(h) == h.out.set /\ h.par.entry = "engine"
 
+\* C09: the noisy run equals its noise-free twin, except for hops that an injected packet legitimately explains
+\* (a damaged copy of a genuine reply can still be a reply that answers the probe: that is C01/C02's business)
+IsInj(h, x) == Len(h.arr[x.pkt].tag) >= 4 /\ SubSeq(h.arr[x.pkt].tag, 1, 4) = "inj:"
+InjAnswers(h, s, d, ttl, addr) ==
+    \E i \in DOMAIN d : \E j \in DOMAIN s :
+        /\ IsInj(h, d[i]) /\ s[j].ttl = ttl /\ PktOf(h, d[i]).src = addr
+        /\ \/ Answers(V(h), h.par.strict, s[j].p, PktOf(h, d[i]))
+           \/ IsSYNv(V(h)) /\ \E k \in 1..j : Direct(V(h), s[k].p, PktOf(h, d[i]))
+C09_twin(h, s, d) ==
+    LET a == h.out.hops  b == h.twin.hops
+        m == IF Len(a) < Len(b) THEN Len(a) ELSE Len(b)
+        injDest == \E i \in DOMAIN d : \E j \in DOMAIN s : IsInj(h, d[i]) /\ DestForm(V(h), s[j].p, PktOf(h, d[i]))
+                                                            /\ Answers(V(h), h.par.strict, s[j].p, PktOf(h, d[i]))
+        \* random byte flips of genuine replies may still be replies (that is C01/C02's business on the exact
+        \* perturbation lattice): for those batches only "no crash, no abort" is judged
+        flips == \E i \in DOMAIN h.arr : Len(h.arr[i].tag) >= 8 /\ SubSeq(h.arr[i].tag, 1, 8) = "inj:flip"
+    IN /\ h.out.panic = ""
+       /\ h.out.ok = h.twin.ok
+       /\ h.out.err.msg = h.twin.err.msg
+       /\ flips \/
+          /\ (Len(a) = Len(b) \/ injDest)
+          /\ \A k \in 1..m : \/ (a[k].addr = b[k].addr /\ a[k].dest = b[k].dest /\ (injDest \/ a[k].rtt_us = b[k].rtt_us))
+                              \/ InjAnswers(h, s, d, a[k].ttl, a[k].addr)
+
 \* is property p applicable to the finished scenario h / does it hold (evaluated lazily, only when applicable)
 App(p, h) ==
     LET s == snt1(h)  ok == h.out.ok IN
@@ -62,7 +86,12 @@ App(p, h) ==
       [] p \in {"C01", "C04", "C05"} -> WireRun(h) /\ ok
       [] p \in {"C02", "C03"}        -> WireRun(h) /\ ok /\ Len(s) >= 1
       [] p \in {"C06", "C08", "C10"} -> WireRun(h)
-      [] p = "C09" -> WireRun(h) /\ h.twinof # "" /\ h.twin.set /\ h.twin.scen = h.twinof
+      [] p = "C09" -> /\ WireRun(h) /\ h.twinof # "" /\ h.twin.set /\ h.twin.scen = h.twinof
+                      \* the one packet that may end a run: an ACK on the probed SACK connection without SACK blocks
+                      /\ ~(IsSACKv(V(h)) /\ \E i \in DOMAIN dl1(h) : \E j \in DOMAIN s :
+                              LET x == PktOf(h, dl1(h)[i]) IN
+                              x.kind = "tcp" /\ ReverseTuple(s[j].p, x) /\ Len(x.sack) = 0
+                              /\ ~HasFlag(x, SYN) /\ ~HasFlag(x, FIN) /\ ~HasFlag(x, RST))
       [] OTHER -> FALSE
 
 Holds(p, h) ==
@@ -76,7 +105,7 @@ Holds(p, h) ==
       [] p = "C05" -> C05_run(h, s, d, hp)
       [] p = "C06" -> C06_Sends(h, s) /\ C06_Stop(h, s, d) /\ C06_Endpoints(h, s, h.out)
       [] p = "C08" -> C08_run(h)
-      [] p = "C09" -> h.out.panic = "" /\ h.out.ok = h.twin.ok /\ h.out.hops = h.twin.hops /\ h.out.err.msg = h.twin.err.msg
+      [] p = "C09" -> C09_twin(h, s, d)
       [] p = "C10" -> C10_run(h)
       [] OTHER -> TRUE
 
